@@ -75,6 +75,23 @@ def mon_c01(tr: Trace) -> list[Violation]:
             if len(ids) > lim or len(set(ids)) != len(ids) or any(i < 0 or i >= lim for i in ids):
                 out.append(Violation("C01/slot_table", f"in_progress of {name} holds worker ids {ids} with num_workers={lim}", _replay(tr)))
                 return out
+    # every started worker task owns its slot until its result tick is processed: a CommandRunWorker for an occupied slot
+    # puts two live invocations on one worker id
+    occupied: set = set()
+    for c in _runner_calls(tr):
+        if c.kind != "reduce" or c.error is not None:
+            continue
+        if isinstance(c.tick, T.TickStepResult):
+            occupied.discard((c.tick.step_name, c.tick.worker_id))
+        for k in c.cmds:
+            if isinstance(k, C.CommandRunWorker):
+                if (k.step_name, k.id) in occupied:
+                    out.append(Violation("C01/slot_started_while_occupied", f"CommandRunWorker for {k.step_name} worker {k.id} while the invocation started earlier on that slot "
+                                         f"has not delivered its result (tick {type(c.tick).__name__})", _replay(tr)))
+                    return out
+                occupied.add((k.step_name, k.id))
+        if _is_exit(c.cmds):
+            break
     open_slots: dict[str, set] = {}
     for (e, _vt, _idx, _o) in tr.stream:
         if isinstance(e, StepStateChanged) and e.worker_id != "<enqueued>":
